@@ -56,6 +56,9 @@ def run(R):
                      "DISTINCT decide `already seen` for EVERY item by inserting its full key (subject, predicate, object / every "
                      "variable-value pair of the row) into the seen-set; nothing is emitted on a path that skipped the test, except "
                      "under `there is at most one source graph`")
+    R.rule("C01-R9", "collection operators are complete: the UNION arm executes EVERY branch on the incoming solutions and appends all of its "
+                     "rows (multiplicity preserved), the VALUES arm turns EVERY data row into a solution (an all-UNDEF row included) and "
+                     "joins them with the incoming solutions; no iteration is skipped")
     R.rule("C01-R7", "plan memo completeness (shared with C02-R1): two different sub-plans of one query never share a memo entry")
     r1(R)
     r2(R)
@@ -65,6 +68,7 @@ def run(R):
     r6(R)
     r7(R)
     r8(R)
+    r9(R)
 
 
 def r1(R):
@@ -622,3 +626,59 @@ def P_calls(node):
         for i in node["in"]:
             out.extend(P_calls(i))
     return out
+
+
+def r9(R):
+    prog = R.prog
+    ex = R.body("C01-R9", "ExecutionEngine::execute_with_ids_and_input", crate="kolibrie")
+    if ex is None:
+        return
+    found = {}
+    for h, blocks in ex.loops():
+        drv = P.driver_of(ex, h, blocks)
+        if not drv or drv[2] is None:
+            continue
+        names, roots = P.flat(drv[2])
+        for r in roots:
+            if r["k"] != "root":
+                continue
+            o = ex.origin({"k": "copy", "pl": {"l": r["local"], "p": [], "t": ""}}, stop_named=False)
+            fl = list(r["fields"])
+            if o[0] == "place":
+                fl += [e["n"] for e in o[1]["p"] if e["k"] == "field"]
+            for want in ("branches", "values"):
+                if want in fl and (want not in found or len(blocks) > len(found[want][1])):
+                    found[want] = (h, blocks, names)
+    for want, acc_names, what in (("branches", ("extend", "append", "push"), "UNION"), ("values", ("push", "extend"), "VALUES")):
+        R.ob("C01-R9", "loop:" + want, "the %s arm iterates over `%s`" % (what, want), want in found, where=ex.where())
+        if want not in found:
+            continue
+        h, blocks, names = found[want]
+        whole = not [n for n in names if n not in ("iter", "into_iter", "deref")]
+        R.ob("C01-R9", "whole:" + want, "the %s loop ranges over every element of `%s` (pipeline %s)" % (what, want, names), whole, where=ex.where())
+        accs = [c for c in ex.calls() if c.bb in blocks and c.name() in acc_names and c.args and "Vec" in ex.local_ty(F.op_place(c.args[0])["l"])
+                and "HashMap" in ex.local_ty(F.op_place(c.args[0])["l"])]
+        # the outermost accumulation of the loop: not inside a nested loop of this loop
+        inner_loops = [(h2, b2) for h2, b2 in ex.loops() if h2 != h and h2 in blocks]
+        accs = [c for c in accs if not any(c.bb in b2 for h2, b2 in inner_loops)]
+        R.ob("C01-R9", "accumulates:" + want, "each iteration of the %s loop appends to the result rows (found %d site)" % (what, len(accs)), len(accs) >= 1, where=ex.where())
+        if not accs:
+            continue
+        entries = [s2 for c in ex.calls() if c.name() == "next" and c.bb in blocks and not any(c.bb in b2 for h2, b2 in inner_loops)
+                   for s1 in ex.succ(c.bb) for s2 in ex.succ(s1) if s2 in blocks and ex.blocks[s1]["term"]["t"] == "switch"]
+        skip = (h in ex.reach_from(entries, avoid={c.bb for c in accs})) if entries else True
+        R.ob("C01-R9", "no-skip:" + want, "no iteration of the %s loop returns to the loop head without appending" % what, not skip, where=ex.where(accs[0].ln),
+             detail=None if not skip else ("a UNION branch that is skipped loses its solutions" if want == "branches" else
+                                           "a VALUES row that is skipped (e.g. an all-UNDEF row) loses the unit solution it stands for"))
+        if want == "branches":
+            # what is appended is the recursive execution of the branch on the incoming solutions
+            rec = [c for c in ex.calls() if c.bb in blocks and c.key == ex.key]
+            okr = len(rec) >= 1 and all(any(ex.alias_root(a) == 4 or _root_is_param(ex, (F.op_place(a) or {"l": -1})["l"], 4) for a in c.args) for c in rec)
+            R.ob("C01-R9", "branch-on-incoming", "every branch is executed on (a copy of) the incoming solutions", okr, where=ex.where(accs[0].ln))
+            dd = [c.name() for c in ex.calls() if c.bb in blocks and c.name() in ("dedup", "dedup_by", "dedup_by_key", "retain", "sort", "sort_unstable")]
+            R.ob("C01-R9", "multiset", "the UNION arm does not de-duplicate or reorder rows (found %s)" % dd, not dd, where=ex.where(accs[0].ln))
+        else:
+            j = [c for c in ex.calls() if c.name() == "join_solution_sequences" and not (c.bb in blocks)]
+            accroot = ex.alias_root(accs[0].args[0])
+            okj = any(ex.alias_root(c.args[1]) == accroot and (ex.alias_root(c.args[0]) == 4 or _root_is_param(ex, (F.op_place(c.args[0]) or {"l": -1})["l"], 4)) for c in j if len(c.args) >= 2)
+            R.ob("C01-R9", "values-joined", "the VALUES rows are joined with the incoming solutions", okj, where=ex.where(accs[0].ln))
